@@ -327,6 +327,18 @@ class Gen:
         ]
         for feat, trait, body in decls:
             self.add(trait, body, 0, {feat, "macro_rules"}, False)
+        # accepted declarations whose emitted code takes a path of its own
+        more = [
+            ("enum-container-default", "FromMeta",
+             "impl crate::ustd::default::Default for R__ { fn default() -> Self { R__::B } } "
+             "#[derive(::darling::FromMeta)] #[darling(default)] pub enum R__ { A { x: u8, y: %s }, B, C(u8) }" % S),
+            ("enum-container-default-explicit", "FromMeta",
+             "fn mk() -> R__ { R__::B } #[derive(::darling::FromMeta)] #[darling(default = mk)] pub enum R__ { A { #[darling(default)] x: u8 }, B }"),
+            ("attributes-ident-field", "FromAttributes",
+             "#[derive(::darling::FromAttributes)] #[darling(attributes(u_attr))] pub struct R__ { pub ident: %s, pub vis: u8 }" % S),
+        ]
+        for feat, trait, body in more:
+            self.add(trait, body, 0, {feat}, False)
 
     def generate(self, n):
         rng = self.rng
